@@ -46,13 +46,13 @@ def handle (st : OSt) (line : String) : OSt × List String :=
       | _ => false
     let s := st.sys
     let (s', next', held') :=
-      if mode == "seq" || mode == "seqerr" || mode == "seqdyn" || mode == "fit" || mode == "fiterr" || mode == "spserr" || mode == "raw" then
+      if mode == "seq" || mode == "seqerr" || mode == "seqdyn" || mode == "seqdly" || mode == "fit" || mode == "fiterr" || mode == "spserr" || mode == "raw" then
         (seqBatch genCfg P ticks shut st.next n s, st.next + n, st.held)
       else if mode == "pool" then
         let w := nat! ((kv rest "pool").getD "1")
         let R := nat! ((kv rest "R").getD "1")
         (poolBatch genCfg P ticks shut true w R st.next n s, st.next + n * (R + 1), st.held)
-      else if mode == "par" || mode == "pardyn" then
+      else if mode == "par" || mode == "pardyn" || mode == "pardly" then
         (parBatch genCfg P ticks shut st.next n s, st.next + n, st.held)
       else if mode == "req" || mode == "basm" then
         (settle genCfg (run genCfg s (reqActs st.next n shut)), st.next + n, st.held)
